@@ -210,6 +210,22 @@ pub struct BigInt { pub v: Ghost<int> }
 pub struct BigUint { pub v: Ghost<nat> }
 pub struct TryFromBigIntError<T> { pub _p: core::marker::PhantomData<T> }
 
+impl DivSpecImpl<BigUint> for BigUint {
+    open spec fn obeys_div_spec() -> bool { true }
+    open spec fn div_req(self, rhs: BigUint) -> bool { rhs.v@ != 0 }
+    open spec fn div_spec(self, rhs: BigUint) -> BigUint { BigUint { v: Ghost(self.v@ / rhs.v@) } }
+}
+impl core::ops::Div<BigUint> for BigUint {
+    type Output = BigUint;
+    /// num-bigint: panics on a zero divisor (hence div_req)
+    #[verifier::external_body]
+    fn div(self, rhs: BigUint) -> BigUint { unimplemented!() }
+}
+impl BigUint {
+    #[verifier::external_body]
+    pub fn to_bytes_be(&self) -> (r: Vec<u8>) ensures be_nat(r@) == self.v@ { unimplemented!() }
+}
+
 macro_rules! try_from_big {
     ($T:ty) => {
         verus! {
